@@ -90,30 +90,59 @@ def bool_switches(fn, P):
         yield b, p, true_edges, false_edges
 
 
+def ret_def_sites(fn):
+    """definition sites (block, idx; idx = -1 for a call) of the values that are moved into the return place: the
+    assignments to `_0` themselves, and — through whole-value moves `_0 = move x` (tail expressions, `?` lowering, the
+    return places of inlined helpers) — the definitions of x that reach the move"""
+    P = Prov(fn, None)
+    out = []
+    seen = set()
+    work = []
+    for b, i, st in fn.stmts():
+        if st['k'] == 'assign' and st['lhs']['l'] == 0 and not st['lhs']['p']:
+            work.append((b, i))
+    for b, t in fn.calls():
+        if t['dest']['l'] == 0 and not t['dest']['p']:
+            work.append((b, -1))
+    while work:
+        b, i = work.pop()
+        if (b, i) in seen:
+            continue
+        seen.add((b, i))
+        if i == -1:
+            out.append((b, -1))
+            continue
+        st = fn.blocks[b]['stmts'][i]
+        rv = st['rv']
+        if rv['k'] == 'use' and rv['op']['k'] in ('copy', 'move') and not rv['op']['pl']['p'] and rv['op']['pl']['l'] > fn.arg_count:
+            src = rv['op']['pl']['l']
+            rs = P.reaching(src, b, i)
+            if rs and all(r is not None and r != 'IN' for r in rs) and not P.has_partial_defs(src):
+                for r in rs:
+                    work.append(r)
+                continue
+        out.append((b, i))
+    return sorted(set(out))
+
+
 def ret_aliases(fn):
-    """locals whose value is moved/copied (whole) into the return place, transitively: the return place itself, the
-    temporaries of `return f(..)` / `x?` lowering, and the return places of inlined helpers"""
+    """locals that hold (at some definition) the value moved into the return place"""
     al = {0}
-    changed = True
-    while changed:
-        changed = False
-        for b, i, st in fn.stmts():
-            if st['k'] == 'assign' and not st['lhs']['p'] and st['lhs']['l'] in al and st['rv']['k'] == 'use' \
-                    and st['rv']['op']['k'] in ('copy', 'move') and not st['rv']['op']['pl']['p']:
-                src = st['rv']['op']['pl']['l']
-                if src not in al and src > fn.arg_count:
-                    al.add(src)
-                    changed = True
+    for b, i in ret_def_sites(fn):
+        if i == -1:
+            al.add(fn.blocks[b]['term']['dest']['l'])
+        else:
+            al.add(fn.blocks[b]['stmts'][i]['lhs']['l'])
     return al
 
 
 def ok_sinks(fn, variants=('Result::Ok', 'Option::Some')):
     """blocks that build the success value of the function's return place"""
     out = []
-    al = ret_aliases(fn)
-    for b, i, st in fn.stmts():
-        if st['k'] != 'assign' or st['lhs']['l'] not in al or st['lhs']['p']:
+    for b, i in ret_def_sites(fn):
+        if i == -1:
             continue
+        st = fn.blocks[b]['stmts'][i]
         rv = st['rv']
         if rv['k'] == 'aggr' and rv.get('akind') == 'adt':
             nm = '%s::%s' % (last(rv['adt']), rv['variant'])
